@@ -501,8 +501,9 @@ def run(ctx):
         ctx.log("  analysis error (not judged here): " + e)
     # ---- level 3: from file text to the report inside the model (Model/EndToEnd.lean, driver op e2e.x86)
     t = time.time()
-    vol3 = (8 if ctx.tier == "quick" else 45) * (3 if ctx.broken else 1)
-    e2e.run_e2e_correspondence(ctx, vol3, shipped=[a for a in E2E_SHIPPED if a in archs])
+    boost3 = 3 if ctx.broken else 1
+    vol3, svol3 = ((6, 5) if ctx.tier == "quick" else (45, 45))
+    e2e.run_e2e_correspondence(ctx, vol3 * boost3, shipped=[a for a in E2E_SHIPPED if a in archs], shipped_volume=svol3 * boost3)
     ctx.log("level 3 (file text -> report, model vs command line): %.0fs" % (time.time() - t))
     # ---- coverage
     ev = ctx.counts.get("L1_cases", 0) + ctx.counts.get("L2_cases", 0)
